@@ -746,13 +746,13 @@ Lemma arrb_length : forall n l, arrb n l = true -> length l = n.
 Proof. intros n l H; unfold arrb in H; apply andb_true_iff in H as [A _]; apply Nat.eqb_eq; exact A. Qed.
 
 Lemma valid_snsetb_spec : forall s, valid_snsetb s = true ->
-  in_i64 (ns_base s) /\ valid_ms (ns_base s) (ns_members s) /\ Forall in_i64 (ns_members s).
+  in_i64 (ns_base s) /\ valid_ms (ns_base s) (ns_members s) /\ Forall (fun m => m < i64_max) (ns_members s).
 Proof.
   intros s H. unfold valid_snsetb in H. apply andb_true_iff in H as [Hb Hm]. apply in_i64b_true in Hb.
   rewrite forallb_forall in Hm. split; [exact Hb|]. split; apply Forall_forall; intros m Hin; specialize (Hm m Hin);
-    apply andb_true_iff in Hm as [Hm H3]; apply andb_true_iff in Hm as [H1 H2].
+    apply andb_true_iff in Hm as [Hm H3]; apply andb_true_iff in Hm as [Hm H2]; apply andb_true_iff in Hm as [H1 H0].
   - apply Z.leb_le in H2. apply Z.ltb_lt in H3. lia.
-  - apply in_i64b_true; exact H1.
+  - apply Z.ltb_lt in H0. exact H0.
 Qed.
 Lemma valid_fnsetb_spec : forall s, valid_fnsetb s = true ->
   in_u32 (ns_base s) /\ valid_ms (ns_base s) (ns_members s) /\ Forall in_u32 (ns_members s).
@@ -778,9 +778,9 @@ Proof.
   eexists; split; [reflexivity|]. split; [|split; [reflexivity|]].
   - split; [exact Hb|apply wf_set_map; exact Hs].
   - unfold snset_members; cbn [ss_base ss_bits ss_map].
-    rewrite members_from_list; [rewrite Hc; reflexivity|].
+    rewrite snset_members_from_list; [rewrite Hc; reflexivity|].
     intros j Hj Hbit. destruct Hs as [_ Hn _ _].
-    apply Hbits in Hbit; [|lia]. rewrite Forall_forall in Hr. specialize (Hr _ Hbit). unfold in_i64 in Hr. lia.
+    apply Hbits in Hbit; [|lia]. rewrite Forall_forall in Hr. specialize (Hr _ Hbit). cbv beta in Hr. lia.
 Qed.
 Lemma fnset_new_valid : forall s, valid_fnsetb s = true ->
   exists x, fnset_new (ns_base s) (ns_members s) = Ok x /\ wf_fnset x /\ fs_base x = ns_base s /\
